@@ -223,3 +223,115 @@ def rf10(run):
     if not ok:
         run.violation(rule, f, 'va_start initial offsets', 'va_start starts from %s; the save area has the integer registers at 0 and the SSE '
                       'registers at %d' % (inits, ABI.GP_LIMIT), line=f.line)
+
+
+def rf10c(run):
+    """register-class counters in the FFI trampoline generator"""
+    from lib import linstate as LS
+    rule = 'RF10c'
+    run.rule(rule, '_MIR_get_ff_call, block arguments passed in registers: in each class branch (BLK+1 … BLK+4) the k-th integer load uses '
+                   'iregs[n_iregs + k], the k-th SSE load uses xmm register n_xregs + k, and afterwards each counter has advanced by '
+                   'exactly the number of loads of its class')
+    mir = run.tu('mir')
+    f = mir.func('_MIR_get_ff_call')
+    run.functions_analysed.add(('mir', f.name))
+    branches = []
+    for n in f.walk():
+        if n['k'] == 'IfStmt':
+            c = F.src(F.strip(n['c'][0]))
+            for k in (1, 2, 3, 4):
+                if c.startswith('((type == (MIR_T_BLK + %d))' % k) or c.startswith('((type == MIR_T_BLK + %d)' % k) or \
+                        ('type == (MIR_T_BLK + %d)' % k in c and c.index('type == (MIR_T_BLK + %d)' % k) < 4):
+                    branches.append((k, n['c'][1], n['l']))
+    found = sorted({k for k, b, l in branches})
+    if found != [1, 2, 3, 4]:
+        raise F.AnalysisBroken('_MIR_get_ff_call: block class branches found: %s' % found)
+    for k, body, line in branches:
+        for qw in ((1, 2) if k in (1, 2) else (2,)):
+            sym = LS.Sym()
+            i0, x0 = LS.Lin({'I': 1}), LS.Lin({'X': 1})
+
+            def decide(cond, σ):
+                c = F.strip(cond)
+                if c['k'] == 'BinaryOperator' and c['op'] == '==':
+                    d = sym.ev(c['c'][0], σ).add(sym.ev(c['c'][1], σ), -1)
+                    if not d.t:
+                        return d.c == 0
+                return None
+            paths = sym.run(F.kids(body) if body['k'] == 'CompoundStmt' else [body], {'n_iregs': i0, 'n_xregs': x0, 'qwords': LS.Lin(const=qw)}, decide)
+            if len(paths) != 1:
+                run.analysis_broken(rule, 'BLK+%d branch: %d paths' % (k, len(paths)))
+                continue
+            σ = paths[0]
+            ints, xmms = [], []
+            for call, st in sym.calls:
+                cal = call.get('callee')
+                args = F.call_args(call)
+                if cal == 'gen_mov2':
+                    a = F.strip(args[2])
+                    if a['k'] == 'ArraySubscriptExpr':
+                        ints.append(sym.ev(a['c'][1], st).add(i0, -1))
+                elif cal == 'gen_movxmm2':
+                    xmms.append(sym.ev(args[2], st).add(x0, -1))
+            di, dx = σ['n_iregs'].add(i0, -1), σ['n_xregs'].add(x0, -1)
+            okseq = [repr(v) for v in ints] == [str(j) for j in range(len(ints))] and [repr(v) for v in xmms] == [str(j) for j in range(len(xmms))]
+            okcnt = repr(di) == str(len(ints)) and repr(dx) == str(len(xmms))
+            ok = okseq and okcnt
+            run.ob(rule, (k, qw), ok, {'class': 'MIR_T_BLK+%d' % k, 'qwords': qw, 'integer loads use n_iregs +': [repr(v) for v in ints],
+                                       'SSE loads use n_xregs +': [repr(v) for v in xmms], 'n_iregs advanced by': repr(di), 'n_xregs advanced by': repr(dx)})
+            if not ok:
+                run.violation(rule, f, 'register counters for MIR_T_BLK+%d (%d qword%s)' % (k, qw, 's' if qw > 1 else ''),
+                              'block class BLK+%d: integer loads use registers n_iregs+%s and SSE loads n_xregs+%s, then n_iregs advances '
+                              'by %s and n_xregs by %s; each counter must advance by the number of loads of its class and the k-th load must '
+                              'use counter+k — otherwise a following argument goes to the wrong register' %
+                              (k, [repr(v) for v in ints], [repr(v) for v in xmms], di, dx), line=line)
+
+
+def rf10b(run):
+    """block class -> eightbyte register classes in the generator's argument passing (caller and callee side)"""
+    rule = 'RF10b'
+    run.rule(rule, 'machinize_call / target_machinize: a block argument of class BLK+1 is moved as integer eightbytes, BLK+2 as SSE '
+                   'eightbytes, BLK+3 as (integer, SSE) and BLK+4 as (SSE, integer) — the classification c2mir\'s target_get_blk_type '
+                   'produces (first eightbyte floating => BLK+4)')
+    gen = run.tu('gen')
+    preds = EF.Predicates(gen)
+    tv = dict(gen.enum('MIR_type_t'))
+    blk = tv['MIR_T_BLK']
+    want = {'mov_type': {1: 'MIR_T_I64', 2: 'MIR_T_D'}, 'mov_type1': {3: 'MIR_T_I64', 4: 'MIR_T_D'}, 'mov_type2': {3: 'MIR_T_D', 4: 'MIR_T_I64'}}
+    tname = {v: n for n, v in tv.items()}
+    nsites = 0
+    for fn in ('machinize_call', 'target_machinize'):
+        f = gen.func(fn)
+        run.functions_analysed.add(('gen', fn))
+        seen = set()
+        for n in f.walk():
+            if n['k'] != 'DeclStmt':
+                continue
+            for d in n['decls']:
+                if d['n'] in want and d.get('init') is not None:
+                    seen.add(d['n'])
+                    for k, exp in want[d['n']].items():
+                        v = preds.eval(d['init'], {'type': blk + k}, frozenset())
+                        got = tname.get(v)
+                        ok = got == exp
+                        nsites += 1
+                        run.ob(rule, (fn, d['n'], k), ok, {'function': fn, 'class': 'MIR_T_BLK+%d' % k, d['n']: got, 'expected': exp})
+                        if not ok:
+                            run.violation(rule, f, '%s for MIR_T_BLK+%d' % (d['n'], k), '%s moves the %s eightbyte of a BLK+%d argument as %s; '
+                                          'the class means %s' % (fn, 'first' if d['n'] != 'mov_type2' else 'second', k, got, exp), line=n['l'])
+        if seen != set(want):
+            run.analysis_broken(rule, '%s: eightbyte class variables found: %s' % (fn, sorted(seen)))
+    # producer: first eightbyte floating => BLK+4
+    c2 = run.tu('c2mir')
+    fs = [g for g in c2.func_list if any(x['k'] == 'ReturnStmt' and 'MIR_T_BLK + 4' in F.src(x) for x in g.walk())]
+    for g in fs:
+        rets = [x for x in g.walk() if x['k'] == 'IfStmt' and x['c'][1] is not None and any(y['k'] == 'ReturnStmt' and F.src(y).endswith('(MIR_T_BLK + 4)') for y in F.walk(x['c'][1]))]
+        for r in rets:
+            c = F.src(F.strip(r['c'][0]))
+            ok = 'qword_types[0]' in c and 'MIR_T_F' in c and 'MIR_T_D' in c
+            nsites += 1
+            run.ob(rule, ('producer', g.name), ok, {'function': g.name, 'BLK+4 returned when': c})
+            if not ok:
+                run.violation(rule, g, 'BLK+4 classification', '%s returns BLK+4 under [%s]; BLK+4 must mean that the first eightbyte is '
+                              'floating-point' % (g.name, c), line=r['l'])
+    return nsites
